@@ -44,6 +44,11 @@ def strptime_calls(t):
     return list(seen.values())
 
 
+def reads_info(t):
+    """t derives from the content of a file that was opened (a .trashinfo)."""
+    return contains(t, lambda x: isinstance(x, Call) and x.fn in ('open', 'io.open'))
+
+
 def is_stdout(t):
     return any(isinstance(a, ExtRef) and a.qualname == 'sys.stdout' for a in flat(t))
 
@@ -57,7 +62,7 @@ def location_uses(ctx, cmd):
         for o in b.nodes('output'):
             if is_stdout(o.data['stream']):
                 for a in o.data['args']:
-                    if has_unquote(a):
+                    if reads_info(a):
                         out.append(('printed line', o, a))
     elif cmd == 'rm':
         for n in b.nodes('assume'):
@@ -71,7 +76,7 @@ def location_uses(ctx, cmd):
         for o in b.nodes('output'):
             if is_stdout(o.data['stream']):
                 for a in o.data['args']:
-                    if has_unquote(a):
+                    if reads_info(a):
                         out.append(('listed line', o, a))
         for n in b.nodes('assume'):
             c, pol = unwrap_not(n.data['cond'], n.data['pol'])
